@@ -15,6 +15,7 @@ Protocol (harness/h_dl.cpp and oracle/dl_main.ml): one command per line, two out
 import math
 import os
 import re
+import select
 import subprocess
 from fractions import Fraction
 
@@ -237,6 +238,14 @@ class Session:
         try:
             self.p.stdin.write(line + "\n")
             self.p.stdin.flush()
+            # a command answers within milliseconds; an implementation that loops (e.g. an explanation walk over cyclic
+            # predecessors) is killed after 3 s and the history ends with `?hang`
+            ready, _, _ = select.select([self.p.stdout], [], [], 3.0)
+            if not ready:
+                self.p.kill()
+                self.dead = True
+                self.outs.append(("?hang", ""))
+                return "?hang", ""
             r = self.p.stdout.readline()
             s = self.p.stdout.readline()
         except (BrokenPipeError, OSError):
